@@ -2,6 +2,8 @@ package main
 
 import (
 	"fmt"
+	"io"
+	"os"
 	"go/constant"
 	"go/token"
 	"go/types"
@@ -78,9 +80,13 @@ type Result struct {
 	Truncated  bool
 	Samples    []string
 	Wall       time.Duration
+	QSites     map[string][3]float64
 }
 
 type job struct{ prefix []dec }
+
+var debugStatus = os.Getenv("GOSYM_DEBUG") != ""
+var profileSites = os.Getenv("GOSYM_PROFILE") != ""
 
 type runShared struct {
 	prog   *ssa.Program
@@ -115,7 +121,9 @@ type Engine struct {
 	inputs   []*inputRec
 	globals  map[*ssa.Global]Loc
 	uniq     map[int32]*Term
+	lb, ub   map[int32]uint64
 	hooks    map[string][]*ClosureV
+	prehooks map[string][]*ClosureV
 	spawned  []*ClosureV
 	world    *World
 	steps    int
@@ -168,6 +176,12 @@ func (e *Engine) freshArr(name string, ew int, n *Term) *Term {
 }
 
 func (e *Engine) query(c *Term) string {
+	if !e.cfg.Deadline.IsZero() && time.Now().After(e.cfg.Deadline) {
+		e.sh.res.mu.Lock()
+		e.sh.res.Truncated = true
+		e.sh.res.mu.Unlock()
+		e.end("budget", "time budget of the harness exhausted")
+	}
 	r := e.sol.CheckWith(c)
 	if r != "sat" && r != "unsat" {
 		e.end("unknown", "solver: "+r+" at "+e.cur)
@@ -177,12 +191,28 @@ func (e *Engine) query(c *Term) string {
 
 // decide forks on a symbolic condition.
 func (e *Engine) decide(c *Term) bool {
+	v := e.decide0(c)
+	if !c.IsConst() {
+		e.intervalLearn(c, v)
+	}
+	return v
+}
+
+func (e *Engine) decide0(c *Term) bool {
 	if c.IsTrue() {
 		return true
 	}
 	if c.IsFalse() {
 		return false
 	}
+	shortcut := false
+	var scVal bool
+	if c2 := e.substUniq(c, 0); c2 != c && c2.IsConst() {
+		shortcut, scVal = true, c2.IsTrue()
+	} else if v, ok := e.intervalDecide(c); ok {
+		shortcut, scVal = true, v
+	}
+
 	if e.pos < len(e.prefix) {
 		d := e.prefix[e.pos]
 		if d.kind != 0 {
@@ -211,14 +241,41 @@ func (e *Engine) decide(c *Term) bool {
 			}
 		}
 		e.trace = append(e.trace, d)
+		if !d.two && !shortcut {
+			e.learnUnique(c)
+		}
 		return v
 	}
+	if shortcut {
+		// the path condition already forces this outcome
+		e.pos++
+		val := uint32(1)
+		if scVal {
+			val = 0
+		}
+		e.trace = append(e.trace, dec{kind: 0, val: val, n: 2, forced: true, lvl: e.sol.Depth()})
+		return scVal
+	}
+	t0q := time.Now()
+	q0 := e.sol.Queries
 	t := e.query(c) == "sat"
 	f := true
 	if t || e.dirty {
 		f = e.query(Not(c)) == "sat"
 	}
 	e.pos++
+	if profileSites {
+		res := e.sh.res
+		res.mu.Lock()
+		st := res.QSites[e.cur]
+		st[0] += float64(e.sol.Queries - q0)
+		st[1] += time.Since(t0q).Seconds()
+		if t && f {
+			st[2]++
+		}
+		res.QSites[e.cur] = st
+		res.mu.Unlock()
+	}
 	switch {
 	case t && f:
 		e.dirty = false
@@ -243,10 +300,12 @@ func (e *Engine) decide(c *Term) bool {
 	case t:
 		e.dirty = false
 		e.trace = append(e.trace, dec{kind: 0, val: 0, n: 2, forced: true, lvl: e.sol.Depth()})
+		e.learnUnique(c)
 		return true
 	case f:
 		e.dirty = false
 		e.trace = append(e.trace, dec{kind: 0, val: 1, n: 2, forced: true, lvl: e.sol.Depth()})
+		e.learnUnique(c)
 		return false
 	}
 	e.end("infeasible", "")
@@ -323,6 +382,7 @@ func (e *Engine) Assume(c *Term) {
 		if e.fresh {
 			e.sol.Assert(c)
 		}
+		e.intervalLearn(c, true)
 		return
 	}
 	if c.IsFalse() {
@@ -330,6 +390,7 @@ func (e *Engine) Assume(c *Term) {
 	}
 	e.sol.Assert(c)
 	e.dirty = true
+	e.intervalLearn(c, true)
 }
 
 // ensureFeasible confirms that the current path condition is satisfiable.
@@ -551,7 +612,7 @@ func (sh *runShared) get() (job, bool) {
 // RunHarness explores all paths of fn with cfg.Workers workers.
 func RunHarness(prog *ssa.Program, fn *ssa.Function, name string, cfg *Config) *Result {
 	res := &Result{Harness: name, Outcomes: map[string]int{}, Sites: map[string]int{}, Covers: map[string]int{},
-		Funcs: map[string]int{}, Asserts: map[string]int{}, KnownHit: map[string]int{}, violSeen: map[string]bool{}}
+		Funcs: map[string]int{}, Asserts: map[string]int{}, KnownHit: map[string]int{}, violSeen: map[string]bool{}, QSites: map[string][3]float64{}}
 	sh := &runShared{prog: prog, fn: fn, cfg: cfg, res: res, stubs: allStubs()}
 	sh.cond = sync.NewCond(&sh.mu)
 	sh.nwork = cfg.Workers
@@ -561,12 +622,40 @@ func RunHarness(prog *ssa.Program, fn *ssa.Function, name string, cfg *Config) *
 	sh.queue = []job{{}}
 	t0 := time.Now()
 	var wg sync.WaitGroup
+	engines := make([]*Engine, sh.nwork)
+	stopStatus := make(chan bool)
+	if debugStatus {
+		go func() {
+			for {
+				select {
+				case <-stopStatus:
+					return
+				case <-time.After(5 * time.Second):
+					res.mu.Lock()
+					fmt.Fprintf(os.Stderr, "  [%s %.0fs] paths=%d outcomes=%v queue=%d\n", name, time.Since(t0).Seconds(), res.Paths, res.Outcomes, len(sh.queue))
+					res.mu.Unlock()
+					for i, e := range engines {
+						if e != nil && e.sol != nil {
+							fmt.Fprintf(os.Stderr, "     w%d q=%d solver=%.1fs at %s depth=%d steps=%d trace=%d\n", i, e.sol.Queries, e.sol.Time.Seconds(), e.cur, e.depth, e.steps, len(e.trace))
+						}
+					}
+				}
+			}
+		}()
+	}
 	for w := 0; w < sh.nwork; w++ {
 		wg.Add(1)
+		w := w
 		go func() {
 			defer wg.Done()
 			e := &Engine{sh: sh, prog: prog, cfg: cfg}
-			e.sol = NewSolver(cfg.SolverBin, cfg.TimeoutMs, nil)
+			engines[w] = e
+			var lg io.Writer
+			if w == 0 && os.Getenv("GOSYM_SMTLOG") != "" {
+				f, _ := os.Create(os.Getenv("GOSYM_SMTLOG"))
+				lg = f
+			}
+			e.sol = NewSolver(cfg.SolverBin, cfg.TimeoutMs, lg)
 			defer func() {
 				res.mu.Lock()
 				res.Queries += e.sol.Queries
@@ -589,7 +678,25 @@ func RunHarness(prog *ssa.Program, fn *ssa.Function, name string, cfg *Config) *
 		}()
 	}
 	wg.Wait()
+	close(stopStatus)
 	res.Wall = time.Since(t0)
+	if profileSites {
+		type kv struct {
+			k string
+			v [3]float64
+		}
+		var l []kv
+		for k, v := range res.QSites {
+			l = append(l, kv{k, v})
+		}
+		sort.Slice(l, func(i, j int) bool { return l[i].v[1] > l[j].v[1] })
+		for i, x := range l {
+			if i >= 25 {
+				break
+			}
+			fmt.Fprintf(os.Stderr, "   site %-50s queries=%6.0f time=%7.1fs forks=%5.0f\n", x.k, x.v[0], x.v[1], x.v[2])
+		}
+	}
 	return res
 }
 
@@ -745,8 +852,11 @@ func (e *Engine) runOnce() (out pathEnd) {
 	e.freshCnt = map[string]int{}
 	e.inputs = nil
 	e.uniq = map[int32]*Term{}
+	e.lb = map[int32]uint64{}
+	e.ub = map[int32]uint64{}
 	e.globals = map[*ssa.Global]Loc{}
 	e.hooks = map[string][]*ClosureV{}
+	e.prehooks = map[string][]*ClosureV{}
 	e.spawned = nil
 	e.world = newWorld()
 	e.steps = 0
@@ -848,6 +958,12 @@ func (e *Engine) callF(fn *ssa.Function, args []Value, free []Value) Value {
 			return st(e, fn, args)
 		}
 		e.end("unsupported", "no body: "+name)
+	}
+	if hs, ok := e.prehooks[name]; ok {
+		for _, h := range hs {
+			k := len(h.fn.Params)
+			e.callF(h.fn, args[:k], h.env)
+		}
 	}
 	r := e.callBody(fn, args, free)
 	if hs, ok := e.hooks[name]; ok {
@@ -1076,4 +1192,342 @@ func sortedKeys(m map[string]int) []string {
 	}
 	sort.Strings(ks)
 	return ks
+}
+
+// substUniq rewrites t using values the path condition is known to force (e.uniq).
+func (e *Engine) substUniq(t *Term, depth int) *Term {
+	if t.IsConst() || len(e.uniq) == 0 {
+		return t
+	}
+	if u, ok := e.uniq[t.id]; ok && u.Op == "c" {
+		return u
+	}
+	if depth >= 4 || len(t.Args) == 0 || t.S.IsArr() {
+		return t
+	}
+	changed := false
+	var args [3]*Term
+	for i, a := range t.Args {
+		if a.S.IsArr() {
+			args[i] = a
+			continue
+		}
+		args[i] = e.substUniq(a, depth+1)
+		if args[i] != a {
+			changed = true
+		}
+	}
+	if !changed {
+		return t
+	}
+	switch t.Op {
+	case "not":
+		return Not(args[0])
+	case "and":
+		return And(args[0], args[1])
+	case "ite":
+		return Ite(args[0], args[1], args[2])
+	case "=", "bvult", "bvule", "bvslt", "bvsle":
+		return Cmp(t.Op, args[0], args[1])
+	case "extract":
+		return Extract(t.P1, t.P2, args[0])
+	case "zext":
+		return ZExt(t.W(), args[0])
+	case "sext":
+		return SExt(t.W(), args[0])
+	case "concat":
+		return Concat(args[0], args[1])
+	case "bvnot":
+		return BvNot(args[0])
+	case "select":
+		return Select(args[0], args[1])
+	case "bvadd", "bvsub", "bvmul", "bvand", "bvor", "bvxor", "bvudiv", "bvurem", "bvsdiv", "bvsrem", "bvshl", "bvlshr", "bvashr":
+		return Bin(t.Op, args[0], args[1])
+	}
+	return t
+}
+
+// learnUnique is called after a forced decision on c: if c compares a term with a constant, find out
+// whether the path condition pins that term to a single value (cached; saves queries in loops).
+func (e *Engine) learnUnique(c *Term) {
+	if c.Op == "not" {
+		c = c.Args[0]
+	}
+	switch c.Op {
+	case "=", "bvult", "bvule":
+	default:
+		return
+	}
+	a, b := c.Args[0], c.Args[1]
+	var x *Term
+	if a.Op == "c" && b.Op != "c" {
+		x = b
+	} else if b.Op == "c" && a.Op != "c" {
+		x = a
+	} else {
+		return
+	}
+	if x.S.W <= 0 {
+		return
+	}
+	if _, ok := e.uniq[x.id]; ok {
+		return
+	}
+	e.uniqueValue(x)
+}
+
+// cmpConst decomposes c into (x op k) with k constant: returns x, k, and a normalised relation:
+// "lt": x < k, "le": x <= k, "gt": x > k, "ge": x >= k, "eq": x == k; neg is applied by the caller.
+func cmpConst(c *Term) (x *Term, k uint64, rel string, ok bool) {
+	switch c.Op {
+	case "bvult":
+		a, b := c.Args[0], c.Args[1]
+		if b.Op == "c" && a.Op != "c" {
+			return a, b.C, "lt", true
+		}
+		if a.Op == "c" && b.Op != "c" {
+			return b, a.C, "gt", true
+		}
+	case "bvule":
+		a, b := c.Args[0], c.Args[1]
+		if b.Op == "c" && a.Op != "c" {
+			return a, b.C, "le", true
+		}
+		if a.Op == "c" && b.Op != "c" {
+			return b, a.C, "ge", true
+		}
+	case "=":
+		a, b := c.Args[0], c.Args[1]
+		if a.S.W <= 0 {
+			return nil, 0, "", false
+		}
+		if b.Op == "c" && a.Op != "c" {
+			return a, b.C, "eq", true
+		}
+		if a.Op == "c" && b.Op != "c" {
+			return b, a.C, "eq", true
+		}
+	}
+	return nil, 0, "", false
+}
+
+func (e *Engine) bounds(x *Term) (uint64, uint64) { return e.boundsD(x, 0) }
+
+// boundsD computes an interval for x from bounds learnt on this path, compositionally.
+func (e *Engine) boundsD(x *Term, d int) (uint64, uint64) {
+	w := x.W()
+	full := mask(w)
+	if x.Op == "c" {
+		return x.C, x.C
+	}
+	lo, hi := uint64(0), full
+	if d < 6 {
+		switch x.Op {
+		case "zext":
+			lo, hi = e.boundsD(x.Args[0], d+1)
+		case "bvadd":
+			al, ah := e.boundsD(x.Args[0], d+1)
+			bl, bh := e.boundsD(x.Args[1], d+1)
+			if ah+bh >= ah && ah+bh <= full {
+				lo, hi = al+bl, ah+bh
+			}
+		case "bvshl":
+			if x.Args[1].Op == "c" && x.Args[1].C < 64 {
+				k := x.Args[1].C
+				al, ah := e.boundsD(x.Args[0], d+1)
+				if ah <= full>>k {
+					lo, hi = al<<k, ah<<k
+				}
+			}
+		case "bvlshr":
+			if x.Args[1].Op == "c" && x.Args[1].C < 64 {
+				k := x.Args[1].C
+				al, ah := e.boundsD(x.Args[0], d+1)
+				lo, hi = al>>k, ah>>k
+			}
+		case "bvand":
+			_, ah := e.boundsD(x.Args[0], d+1)
+			_, bh := e.boundsD(x.Args[1], d+1)
+			hi = ah
+			if bh < hi {
+				hi = bh
+			}
+		case "bvmul":
+			al, ah := e.boundsD(x.Args[0], d+1)
+			bl, bh := e.boundsD(x.Args[1], d+1)
+			if ah == 0 || bh == 0 || ah <= full/bh {
+				lo, hi = al*bl, ah*bh
+			}
+		case "ite":
+			al, ah := e.boundsD(x.Args[1], d+1)
+			bl, bh := e.boundsD(x.Args[2], d+1)
+			lo, hi = al, ah
+			if bl < lo {
+				lo = bl
+			}
+			if bh > hi {
+				hi = bh
+			}
+		case "extract":
+			if x.P2 == 0 {
+				al, ah := e.boundsD(x.Args[0], d+1)
+				if ah <= full {
+					lo, hi = al, ah
+				}
+			}
+		}
+	}
+	if u := ubound(x, 0); u < hi {
+		hi = u
+	}
+	if v, ok := e.lb[x.id]; ok && v > lo {
+		lo = v
+	}
+	if v, ok := e.ub[x.id]; ok && v < hi {
+		hi = v
+	}
+	return lo, hi
+}
+
+// intervalDecide answers comparisons with constants from bounds learnt on this path.
+func (e *Engine) intervalDecide(c *Term) (bool, bool) {
+	neg := false
+	if c.Op == "not" {
+		neg = true
+		c = c.Args[0]
+	}
+	x, k, rel, ok := cmpConst(c)
+	if !ok {
+		// both sides symbolic: decide from disjoint intervals
+		if (c.Op == "=" || c.Op == "bvult" || c.Op == "bvule") && c.Args[0].S.W > 0 {
+			al, ah := e.bounds(c.Args[0])
+			bl, bh := e.bounds(c.Args[1])
+			var v, known bool
+			switch c.Op {
+			case "=":
+				if ah < bl || bh < al {
+					v, known = false, true
+				}
+			case "bvult":
+				if ah < bl {
+					v, known = true, true
+				} else if al >= bh {
+					v, known = false, true
+				}
+			case "bvule":
+				if ah <= bl {
+					v, known = true, true
+				} else if al > bh {
+					v, known = false, true
+				}
+			}
+			if known {
+				if neg {
+					v = !v
+				}
+				return v, true
+			}
+		}
+		return false, false
+	}
+	lo, hi := e.bounds(x)
+	var v, known bool
+	switch rel {
+	case "lt":
+		if hi < k {
+			v, known = true, true
+		} else if lo >= k {
+			v, known = false, true
+		}
+	case "le":
+		if hi <= k {
+			v, known = true, true
+		} else if lo > k {
+			v, known = false, true
+		}
+	case "gt":
+		if lo > k {
+			v, known = true, true
+		} else if hi <= k {
+			v, known = false, true
+		}
+	case "ge":
+		if lo >= k {
+			v, known = true, true
+		} else if hi < k {
+			v, known = false, true
+		}
+	case "eq":
+		if k < lo || k > hi {
+			v, known = false, true
+		} else if lo == hi {
+			v, known = true, true
+		}
+	}
+	if !known {
+		return false, false
+	}
+	if neg {
+		v = !v
+	}
+	return v, true
+}
+
+func (e *Engine) intervalLearn(c *Term, outcome bool) {
+	if c.Op == "not" {
+		outcome = !outcome
+		c = c.Args[0]
+	}
+	if c.Op == "and" {
+		if outcome {
+			e.intervalLearn(c.Args[0], true)
+			e.intervalLearn(c.Args[1], true)
+		}
+		return
+	}
+	x, k, rel, ok := cmpConst(c)
+	if !ok {
+		return
+	}
+	setLo := func(v uint64) {
+		if cur, ok := e.lb[x.id]; !ok || v > cur {
+			e.lb[x.id] = v
+		}
+	}
+	setHi := func(v uint64) {
+		if cur, ok := e.ub[x.id]; !ok || v < cur {
+			e.ub[x.id] = v
+		}
+	}
+	if !outcome {
+		switch rel {
+		case "lt":
+			rel = "ge"
+		case "le":
+			rel = "gt"
+		case "gt":
+			rel = "le"
+		case "ge":
+			rel = "lt"
+		case "eq":
+			return
+		}
+	}
+	switch rel {
+	case "lt":
+		if k > 0 {
+			setHi(k - 1)
+		}
+	case "le":
+		setHi(k)
+	case "gt":
+		if k < ^uint64(0) {
+			setLo(k + 1)
+		}
+	case "ge":
+		setLo(k)
+	case "eq":
+		setLo(k)
+		setHi(k)
+	}
 }
